@@ -260,6 +260,9 @@ func (d *cnDriver) genEvidence(nonceBump map[string]uint64) []cnTxMeta {
 		if d.rng.Intn(6) == 0 {
 			node = fmt.Sprintf("N%d", d.rng.Intn(len(n.vals)))
 		}
+		if node == "N1" {
+			continue // documented precondition of C10: entity 1 stays stake-eligible (its node is not slashed by the scenario)
+		}
 		round := v.Round + 1
 		switch d.rng.Intn(6) {
 		case 0:
